@@ -228,6 +228,19 @@ func (e *SpecEnv) ident(id *ast.Ident) (SV, error) {
 				// a local variable has no value at entry: inside old() it would denote an unconstrained constant
 				return SV{}, fmt.Errorf("local variable %q inside old(): locals have no entry value (name the parameter-based term instead)", name)
 			}
+			if base, isArr := g.arrBase[al]; isArr && base.S != "" {
+				// a local array lives in the element heap: its value is the array of its current cells
+				at, ok := et.Underlying().(*types.Array)
+				if !ok || at.Len() > 16 || g.w.heapBound() {
+					return SV{}, fmt.Errorf("local array %q cannot be named here", name)
+				}
+				av := g.w.fresh("av_"+name, g.w.sortOf(et))
+				for i := int64(0); i < at.Len(); i++ {
+					ea := Addr{kind: "elem", slice: base, idx: T(fmt.Sprint(i), "Int"), typ: at.Elem()}
+					g.w.assume(fmt.Sprintf("(= (select %s %d) %s)", av.S, i, g.w.loadAddr(ea, e.state(), at.Elem()).S))
+				}
+				return SV{av, et}, nil
+			}
 			a := g.resolveAddr(al, e.state())
 			return SV{g.w.loadAddr(a, e.state(), et), et}, nil
 		}
